@@ -25,7 +25,7 @@ e2h = e2.spawn(c.d, specs)
 fams = []
 def fam(name, entry, tier='quick', witness=False, w=1, opts=None, **kw):
     defs = ['%s=%s' % (k, v) for k, v in kw.items()] + (['WITNESS=1'] if witness else [])
-    o = {'sym_draws': 1, 'libm_uf': 1, 'exact_roots': 1, 'fp_traps': 1, 'time_limit': 420 if tier == 'quick' else 2400, 'max_viol': 400, 'query_timeout_ms': 60000}
+    o = {'sym_draws': 1, 'libm_uf': 1, 'exact_roots': 1, 'fp_traps': 1, 'time_limit': 900 if tier == 'quick' else 2400, 'max_viol': 400, 'query_timeout_ms': 60000}
     o.update(opts or {})
     fams.append(Family(name + ('-witness' if witness else ''), 'h_c16.c', entry, defs, opts=o, tier=tier, witness=witness, weight=w, validate=2))
 fam('uniform-bernoulli-flip', 'e_uniform')
